@@ -45,8 +45,8 @@ def run(facts, res):
 
     n_acq = sum(len(bl.acqs) for bl in w.bl.values())
     classes = sorted({a.cls for bl in w.bl.values() for a in bl.acqs.values()})
-    res.floor("R1", "lock classes", len(classes), 10)
-    res.floor("R1", "acquisition sites", n_acq, 100)
+    res.floor("R1", "lock classes", len(classes), 8)
+    res.floor("R1", "acquisition sites", n_acq, 60)
     res.note("lock classes: %s; %d direct acquisition sites" % (", ".join(classes), n_acq))
 
     rur = []   # read-under-read info items: (body path, cls, site)
@@ -94,7 +94,7 @@ def run(facts, res):
                                   "%s holds %s.%s [acquired %s] while calling %s which acquires %s.%s (%s): %s" % (
                                       p, h.cls, h.mode, h.loc(), tgt, cls, mode, c, " -> ".join(chain) or "direct"),
                                   site.loc(), held=repr(h), chain=chain)
-    res.floor("R1", "call sites executed under a held guard", n_sites, 60)
+    res.floor("R1", "call sites executed under a held guard", n_sites, 40)
     res.note("read-under-read (information; violation only under R2): " + "; ".join(sorted({s[3] for s in rur})))
 
     # ---------------------------------------------------------------- R2 regions
@@ -113,7 +113,7 @@ def run(facts, res):
     for body, site, tasks in regions:
         key = (body.path, tuple(sorted(t.path for t in tasks)))
         seen.setdefault(key, (body, [], tasks))[1].append(site)
-    res.floor("R2", "rayon parallel regions", len(seen), 10)
+    res.floor("R2", "rayon parallel regions", len(seen), 6)
     for (bp, tp), (body, sites, tasks) in sorted(seen.items()):
         members = {}
         for t in tasks:
